@@ -25,10 +25,10 @@ var rules = []*Rule{
 	{ID: "R8", Title: "KEY-EQUALITY: a hash hit is only a candidate", Props: []string{"C09", "C13", "C14", "C11"}, Run: func(p *Prog) []Ob {
 		return append(append(ruleR8(p), p.collectLoopAscends()...), p.ownBackingArray()...)
 	}},
-	{ID: "R10", Title: "DECODER-VALIDATION: nothing is returned before it is checked", Props: []string{"C14", "C07", "C05", "C11", "C09", "C01", "C17", "C13"}, Run: func(p *Prog) []Ob {
+	{ID: "R10", Title: "DECODER-VALIDATION: nothing is returned before it is checked", Props: []string{"C14", "C07", "C05", "C11", "C09", "C01", "C17", "C13", "C02"}, Run: func(p *Prog) []Ob {
 		return append(append(append(append(ruleR10(p), p.wholeItems()...), p.eofOrigin()...), p.freshMessage()...), p.wholeHeaderAndMappedAccess()...)
 	}},
-	{ID: "R11", Title: "COPY-LOOP: every record read is accounted for", Props: []string{"C01", "C02", "C03", "C05", "C07", "C08", "C11", "C12", "C17"}, Run: func(p *Prog) []Ob {
+	{ID: "R11", Title: "COPY-LOOP: every record read is accounted for", Props: []string{"C01", "C02", "C03", "C05", "C07", "C08", "C11", "C12", "C17", "C10"}, Run: func(p *Prog) []Ob {
 		return append(append(append(ruleR11(p), p.deletedSizeVersion()...), p.publishLoopObligations()...), append(append(append(p.indexTimeSeed(), p.wholeIndexCompare()...), p.scanBeforeVerdict()...), append(append(p.checkAndRecoverVerdicts(), p.publishedPositionIsWritten()...), p.recoverWritesKnownVersion()...)...)...)
 	}},
 	{ID: "R12", Title: "EFFECT-CONFINEMENT: who can change a log file", Props: []string{"C19", "C20", "C07", "C11", "C13", "C08"}, Run: func(p *Prog) []Ob { return append(ruleR12(p), p.indexConfinement()...) }},
@@ -36,7 +36,7 @@ var rules = []*Rule{
 		return append(append(ruleR15(p), p.openWrappersRelease()...), p.nothingBeforeTheLock()...)
 	}},
 	{ID: "R14", Title: "NOTIFY: publish-then-set, probe-under-token", Props: []string{"C18"}, Run: ruleR14},
-	{ID: "R13", Title: "SEGMENT-NAMES: what New prints, Find parses, and sorts", Props: []string{"C01", "C02", "C20", "C05", "C12", "C19", "C06"}, Run: func(p *Prog) []Ob {
+	{ID: "R13", Title: "SEGMENT-NAMES: what New prints, Find parses, and sorts", Props: []string{"C01", "C02", "C20", "C05", "C12", "C19", "C06", "C03"}, Run: func(p *Prog) []Ob {
 		return append(append(ruleR13(p), p.findAdoptsAll()), p.everyFoundSegmentIsOpened()...)
 	}},
 	{ID: "R16", Title: "INDEX-OPTIONAL: an index file may always be missing", Props: []string{"C11", "C07", "C08", "C20"}, Run: func(p *Prog) []Ob {
@@ -50,7 +50,7 @@ var rules = []*Rule{
 	{ID: "R17", Title: "OFFSET-ASSIGNMENT", Props: []string{"C02", "C01", "C03"}, Run: func(p *Prog) []Ob {
 		return append(append(append(ruleR17(p), p.tailSurvivedObligations()...), p.rolloverFromNonEmpty()...), append(p.nextOffsetFromTheHead(), p.nextOffsetIsNotACount()...)...)
 	}},
-	{ID: "R5", Title: "INUSE: the unload refcount protocol", Props: []string{"C08", "C19"}, Run: ruleR5},
+	{ID: "R5", Title: "INUSE: the unload refcount protocol", Props: []string{"C08", "C19", "C04", "C03"}, Run: ruleR5},
 	{ID: "R18", Title: "SNAPSHOT-REVALIDATION", Props: []string{"C08", "C12", "C03", "C15"}, Run: func(p *Prog) []Ob {
 		return append(append(append(ruleR18(p), p.deleteSerialised()...), p.staleReader()...), append(p.lostRaceIsNotAnAnswer(), append(p.nothingDeletedMeansNothingToDelete(), p.deleteAnswersNothingOnlyForNothing()...)...)...)
 	}},
